@@ -344,7 +344,22 @@ func (e *Engine) initExt2() {
 			})
 		}
 	}
-	uf([]string{"github.com/spdx/tools-golang/spdx/v2/common.MakeDocElementID", "sigs.k8s.io/release-utils/version.GetVersionInfo"}, "pure function of its arguments (uninterpreted)")
+	uf([]string{"sigs.k8s.io/release-utils/version.GetVersionInfo"}, "pure function of its arguments (uninterpreted)")
+	e.reg("github.com/spdx/tools-golang/spdx/v2/common.MakeDocElementID", "common.MakeDocElementID(docRef, eltRef): the struct {DocumentRefID: docRef, ElementRefID: eltRef, SpecialID: \"\"} (its three-line body)", func(f *Frame, st *State, c *ssa.CallCommon, args []Val, rt types.Type, pos token.Pos) Val {
+		lay := layout(rt)
+		out := Val{T: rt}
+		for _, l := range lay {
+			switch {
+			case strings.HasSuffix(l.Suffix, "DocumentRefID"):
+				out.L = append(out.L, args[0].one())
+			case strings.HasSuffix(l.Suffix, "ElementRefID"):
+				out.L = append(out.L, args[1].one())
+			default:
+				out.L = append(out.L, StrT(""))
+			}
+		}
+		return out
+	})
 	e.reg("path/filepath.Join", "filepath.Join(dir, name): a function of its two arguments whose directory part is dir (name is a plain file name)", func(f *Frame, st *State, c *ssa.CallCommon, args []Val, rt types.Type, pos token.Pos) Val {
 		vc := f.vc
 		if c != nil {
